@@ -159,58 +159,52 @@ func parseValue(dec *json.Decoder) (any, error) {
 
 func MarshalOrdered(m *orderedmap.OrderedMap[string, any]) ([]byte, error) {
 	var buf bytes.Buffer
-	buf.WriteByte('{')
-	for el, i := m.Front(), 0; el != nil; el, i = el.Next(), i+1 {
-		if i > 0 {
-			buf.WriteByte(',')
-		}
-		keyBytes, err := json.Marshal(el.Key)
-		if err != nil {
-			return nil, err
-		}
-		buf.Write(keyBytes)
-		buf.WriteByte(':')
-
-		switch v := el.Value.(type) {
-		case *orderedmap.OrderedMap[string, any]:
-			valBytes, err := MarshalOrdered(v)
-			if err != nil {
-				return nil, err
-			}
-			buf.Write(valBytes)
-		case []any:
-			// Handle arrays of maps
-			buf.WriteByte('[')
-			for j, item := range v {
-				if j > 0 {
-					buf.WriteByte(',')
-				}
-				switch vv := item.(type) {
-				case *orderedmap.OrderedMap[string, any]:
-					valBytes, err := MarshalOrdered(vv)
-					if err != nil {
-						return nil, err
-					}
-					buf.Write(valBytes)
-				default:
-					valBytes, err := json.Marshal(vv)
-					if err != nil {
-						return nil, err
-					}
-					buf.Write(valBytes)
-				}
-			}
-			buf.WriteByte(']')
-		default:
-			valBytes, err := json.Marshal(v)
-			if err != nil {
-				return nil, err
-			}
-			buf.Write(valBytes)
-		}
+	if err := marshalOrderedValue(&buf, m); err != nil {
+		return nil, err
 	}
-	buf.WriteByte('}')
 	return buf.Bytes(), nil
+}
+
+// marshalOrderedValue writes v as JSON, keeping the key order of ordered maps at
+// every depth (also inside nested arrays).
+func marshalOrderedValue(buf *bytes.Buffer, v any) error {
+	switch vv := v.(type) {
+	case *orderedmap.OrderedMap[string, any]:
+		buf.WriteByte('{')
+		for el, i := vv.Front(), 0; el != nil; el, i = el.Next(), i+1 {
+			if i > 0 {
+				buf.WriteByte(',')
+			}
+			keyBytes, err := json.Marshal(el.Key)
+			if err != nil {
+				return err
+			}
+			buf.Write(keyBytes)
+			buf.WriteByte(':')
+			if err := marshalOrderedValue(buf, el.Value); err != nil {
+				return err
+			}
+		}
+		buf.WriteByte('}')
+	case []any:
+		buf.WriteByte('[')
+		for j, item := range vv {
+			if j > 0 {
+				buf.WriteByte(',')
+			}
+			if err := marshalOrderedValue(buf, item); err != nil {
+				return err
+			}
+		}
+		buf.WriteByte(']')
+	default:
+		valBytes, err := json.Marshal(vv)
+		if err != nil {
+			return err
+		}
+		buf.Write(valBytes)
+	}
+	return nil
 }
 
 func FileExists(filename string) bool {
